@@ -118,6 +118,16 @@ def oracle(c, iv):
     got = [tree_str(o) for o in iv[3]]
     if got != want:
         return "amplitudes are not the full cartesian expansion of the lines, each once and in file order"
+    # couplings of the mother's lines: real + i imag under the coherent-sum option, magnitude * exp(i phase) otherwise
+    fcs = [ln[1] for ln in c["opt"] if ln[0] == "fcs"]
+    cart = c["cart0"] if not fcs else fcs[0] == "1"
+    heads = [ln for ln in cplx if ln[1][0] == "D0" for _ in exp(ln[1])]
+    for ln, o in zip(heads, iv[3]):
+        v1, v2 = float(Fraction(ln[2][1])), float(Fraction(ln[3][1]))
+        amp = complex(v1, v2) if cart else v1 * cmath.exp(v2 * 1j)
+        if not (close(o[4][0], amp.real) and close(o[4][1], amp.imag)):
+            return ("coupling of a line is not " + ("real + i imag (coherent-sum option on)" if cart else "magnitude * exp(i phase) (coherent-sum option off or absent)")
+                    + ": " + ampgen_gen.render_tree(ln[1]))
     if len(iv[1]) != sum(1 for ln in c["opt"] if ln[0] == "var") or len(iv[2]) != sum(1 for ln in c["opt"] if ln[0] == "const"):
         return "parameter / constant tables do not have one row per line"
     return None
@@ -174,7 +184,7 @@ def main():
         if msg:
             hits.append((cases[i], "F7: text with the coherent-sum option raises AttributeError" if msg == "exception AttributeError" else msg))
     vlib.std_failure(ck, "Props/C17.v", cases, diffs, impl, model, hits, "py/c17.py",
-                     sig_of=lambda c, v: "F7:coherent-sum-option-AttributeError" if v.startswith("F7") else "oracle:" + v)
+                     sig_of=lambda c, v: "F7:coherent-sum-option-AttributeError" if v.startswith("F7") else "oracle:" + v.split(": ")[0])
     sys.exit(ck.finish())
 
 
